@@ -414,4 +414,99 @@ example :
       "responseData", "responseData", "responseCountry", "Write"] := by
   decide
 
+/-! ## Where the profile's switches come from: `filecachepb.Profile.toInternal`, `backendpb.DNSProfile.toInternal`
+
+The two converters that build the `agd.Profile` which `recordQueryInfo` reads — from the cache file after a
+restart, from the backend's message on a synchronisation.  Everything they call (blocking mode, schedule, ID
+validation, devices, rule lists, …) is opaque; the theorems say that *whenever* a profile comes out, its logging
+switches, its `Deleted` mark and its ID are the message's own fields of the same meaning — for every message and
+every behaviour of the callees — and that this is the hand model's `profOfCache` / `profOfBackend`. -/
+
+/-- The bytes of a Go string. -/
+def bytes (s : String) : Agd.Record.Str := s.toUTF8.toList.map (·.toNat)
+
+/-- The hand model's view of an `agd.Profile`. -/
+def dbView (p : S_agd_Profile) : Agd.Record.DBProf := ⟨⟨bytes p.ID, p.QueryLogEnabled, p.IPLogEnabled⟩, p.Deleted⟩
+
+/-- The hand model's view of a cache-file `Profile` message. -/
+def cacheView (x : S_filecachepb_Profile) : Agd.Record.CacheProf :=
+  ⟨bytes x.ProfileId, x.QueryLogEnabled, x.IpLogEnabled, x.Deleted⟩
+
+/-- **fcProfileToInternal_switches.** A profile read back from the cache file has the file's
+`query_log_enabled` as its query-log switch, the file's `ip_log_enabled` as its IP-log switch, the file's
+`deleted` and `profile_id`; and when no profile comes out there is an error. -/
+theorem fcProfileToInternal_switches (x : S_filecachepb_Profile) (sz : Int) (o1 : AbsPtr × Option String)
+    (o2 : Option S_filter_ConfigSchedule × Option String) (o3 o4 o5 : List String) (o6 : Int)
+    (r : Option S_agd_Profile × Option String) (h : fcProfileToInternal x sz o1 o2 o3 o4 o5 o6 = some r) :
+    (∀ p, r.1 = some p → p.QueryLogEnabled = x.QueryLogEnabled ∧ p.IPLogEnabled = x.IpLogEnabled ∧
+      p.Deleted = x.Deleted ∧ p.ID = x.ProfileId ∧ r.2 = none) ∧ (r.1 = none → r.2 ≠ none) := by
+  unfold fcProfileToInternal at h
+  simp only [] at h
+  split at h
+  · cases h; simp
+  · split at h
+    · cases h; simp
+    · split at h
+      · cases h
+      · cases h; simp
+
+/-- The same as an equation with the hand model. -/
+theorem fcProfileToInternal_tr (x : S_filecachepb_Profile) (sz : Int) (o1 : AbsPtr × Option String)
+    (o2 : Option S_filter_ConfigSchedule × Option String) (o3 o4 o5 : List String) (o6 : Int)
+    (p : S_agd_Profile) (e : Option String) (h : fcProfileToInternal x sz o1 o2 o3 o4 o5 o6 = some (some p, e)) :
+    dbView p = Agd.Record.profOfCache (cacheView x) := by
+  obtain ⟨h1, h2, h3, h4, _⟩ := (fcProfileToInternal_switches x sz o1 o2 o3 o4 o5 o6 _ h).1 p rfl
+  simp [dbView, cacheView, Agd.Record.profOfCache, h1, h2, h3, h4]
+
+/-- The hand model's view of the backend's `DNSProfile` message; the ID is the validated `dns_id`
+(`agd.NewProfileID` returns its argument or an error). -/
+def wireView (m : S_backendpb_DNSProfile) (validatedID : String) : Agd.Record.WireProf :=
+  ⟨bytes validatedID, m.QueryLogEnabled, m.IpLogEnabled, m.Deleted⟩
+
+/-- **bpProfileToInternal_switches.** A profile converted from the backend's message has the message's
+`query_log_enabled`, `ip_log_enabled` and `deleted`, and the ID that `NewProfileID` returned. -/
+theorem bpProfileToInternal_switches (x : Option S_backendpb_DNSProfile) (upd : String) (sz : Int)
+    (o1 : Option S_filter_ConfigParental × Option String) (o2 : AbsPtr × Option String)
+    (o3 : List (Option S_agd_Device) × List String) (o4 : String × Option String) (e5 : AbsPtr) (o6 : Int)
+    (o7 : List String) (o8 : Option S_filter_ConfigRuleList) (o9 : Option S_filter_ConfigSafeBrowsing)
+    (p : S_agd_Profile) (ds : List (Option S_agd_Device)) (e : Option String)
+    (h : bpProfileToInternal x upd sz o1 o2 o3 o4 e5 o6 o7 o8 o9 = some (some p, ds, e)) :
+    ∃ m, x = some m ∧ p.QueryLogEnabled = m.QueryLogEnabled ∧ p.IPLogEnabled = m.IpLogEnabled ∧
+      p.Deleted = m.Deleted ∧ p.ID = o4.1 ∧ o4.2 = none ∧ e = none := by
+  cases x with
+  | none => simp [bpProfileToInternal] at h
+  | some m =>
+    refine ⟨m, rfl, ?_⟩
+    unfold bpProfileToInternal at h
+    simp only [Option.isNone_some, Bool.false_eq_true, if_false] at h
+    split at h
+    · simp at h
+    · split at h
+      · simp at h
+      · split at h
+        · simp at h
+        · rename_i hid
+          split at h <;> simp at h <;> obtain ⟨hp, _, he⟩ := h <;> subst hp <;> simp_all
+
+theorem bpProfileToInternal_tr (x : Option S_backendpb_DNSProfile) (upd : String) (sz : Int)
+    (o1 : Option S_filter_ConfigParental × Option String) (o2 : AbsPtr × Option String)
+    (o3 : List (Option S_agd_Device) × List String) (o4 : String × Option String) (e5 : AbsPtr) (o6 : Int)
+    (o7 : List String) (o8 : Option S_filter_ConfigRuleList) (o9 : Option S_filter_ConfigSafeBrowsing)
+    (p : S_agd_Profile) (ds : List (Option S_agd_Device)) (e : Option String)
+    (h : bpProfileToInternal x upd sz o1 o2 o3 o4 e5 o6 o7 o8 o9 = some (some p, ds, e)) :
+    ∃ m, x = some m ∧ dbView p = Agd.Record.profOfBackend (wireView m o4.1) := by
+  obtain ⟨m, hm, h1, h2, h3, h4, _⟩ := bpProfileToInternal_switches x upd sz o1 o2 o3 o4 e5 o6 o7 o8 o9 p ds e h
+  exact ⟨m, hm, by simp [dbView, wireView, Agd.Record.profOfBackend, h1, h2, h3, h4]⟩
+
+/-- Non-vacuity: a cache-file profile with query logging on and IP logging off comes back exactly so. -/
+example :
+    let x : S_filecachepb_Profile :=
+      { sizeCache := 0, unknownFields := [], FilterConfig := some ⟨0, [], none, some ⟨0, [], none, [], false, false, false, false⟩,
+          some ⟨0, [], [], false⟩, some ⟨0, [], false, false, false⟩⟩, Access := none, Ratelimiter := none, ProfileId := "prof1",
+        DeviceIds := ["d"], AutoDevicesEnabled := true, BlockChromePrefetch := true, BlockFirefoxCanary := true,
+        BlockPrivateRelay := true, Deleted := false, FilteringEnabled := true, IpLogEnabled := false, QueryLogEnabled := true }
+    (fcProfileToInternal x 0 (true, none) (none, none) [] [] ["d"] 10).map
+      (fun r => r.1.map fun p => (p.QueryLogEnabled, p.IPLogEnabled, p.Deleted, p.ID)) = some (some (true, false, false, "prof1")) := by
+  decide
+
 end Agd.Tie.TrC15
